@@ -11,6 +11,9 @@ Obs == LET ed == EffectiveOf(tally) IN
         allNow |-> AllNow, effNow |-> EffNow, schedNow |-> Schedule(EffNow),
         allDone |-> AllOf(tally), effDone |-> ed, schedDone |-> Schedule(ed),
         min |-> MinVotes, interval |-> Interval, epoch |-> Epoch, nfed |-> NFed, nkeys |-> NKeys]
-Export == PrintT("EXPORT " \o ToJson([calls |-> hist', obs |-> Obs']))
+(* State constraint (always TRUE): TLC evaluates it on every generated successor state,  *)
+(* i.e. once per explored transition, in an unprimed context (where TLC caches LET and   *)
+(* operator-argument values; the primed ACTION_CONSTRAINT form is ~20x slower here).     *)
+Export == PrintT("EXPORT " \o ToJson([calls |-> hist, obs |-> Obs]))
 GView == View
 =============================================================================
